@@ -327,7 +327,48 @@ def r5_who_may_call(ctx):
         ctx.floor('callers of %s' % short(k), len(roots), 1)
 
 
+STACK_REORDER = ('push_front', 'sort', 'reverse', 'swap', 'remove', 'insert', 'rotate', 'retain', 'dedup', 'truncate', 'pop', 'split_off',
+                 'clear', 'splice', 'extract_if', 'select_nth', 'fill', 'copy_within', 'drain')
+
+
+def r7_stack_order(ctx):
+    """the stack order elements are visited in is the order they were installed in: the element vector of a ProcessingStack only ever grows
+    at its end (append = existing elements first, then the expansion, in its order)"""
+    ctx.set_rule('C14.R7')
+    P = ctx.P
+    PS = 'des::net::processing::ProcessingStack'
+    f = ctx.anchor(PS + '::append')
+    if not f:
+        return
+    ctx.touch(f)
+    grow = [s for s in f.calls() if s.name.split('::')[-1] in ('extend', 'append', 'push', 'extend_from_slice') and s.args and
+            receiver_field(f.expr_operand(s.args[0], s.b, 'T')) == 'items']
+    ctx.floor('growth of the element vector in ProcessingStack::append', len(grow), 1)
+    for s in grow:
+        recv = peel(f.expr_operand(s.args[0], s.b, 'T'))
+        own = any(x[0] == 'arg' and x[1] == 1 for x in walk(recv))
+        ctx.check(own and f.postdominates_entry(s.b) and not [a for _, a in f.guard_atoms(s.b)], 'append-at-end',
+                  "append extends the stack's own element vector at its end, unconditionally (the existing elements keep their positions)", s.where())
+    n = 0
+    for g in P.fn_list:
+        if not g.key.startswith(('des::net::processing::', '<des::net::processing::')) or g.kind == 'promoted':
+            continue
+        for s in g.calls():
+            if not s.args:
+                continue
+            last = s.name.split('::')[-1]
+            whole = s.name in ('std::mem::swap', 'std::mem::replace', 'std::mem::take')
+            if not (whole or (any(last.startswith(x) for x in STACK_REORDER) and ('Vec' in s.name or 'slice' in s.name))):
+                continue
+            hits = [a for a in s.args[:2] if receiver_field(g.expr_operand(a, s.b, 'T')) == 'items'
+                    and 'ProcessingElement' in ''.join(s.argtys or [])]
+            n += 1
+            ctx.check(not hits, 'stack-reordered:%s' % g.key, 'no operation moves, removes or exchanges installed processing elements', s.where(), s.name)
+    ctx.ok('operations on element vectors in des::net::processing inspected: %d' % n, f.where())
+
+
 def run(ctx):
+    r7_stack_order(ctx)
     r1_pairing(ctx)
     r2_directions(ctx)
     r3_per_element(ctx)
